@@ -97,3 +97,76 @@ def analyse(cap: Capture):
             bound_all |= bound | set(f['locals'] or [])
             ref_all |= ref
     return rows, bound_all, ref_all
+
+
+MUTATORS = {'pop', 'popitem', 'clear', 'update', 'setdefault', 'append', 'extend', 'insert', 'remove', 'sort', 'reverse', 'add',
+            'discard', 'appendleft', 'extendleft', 'rotate', '__setitem__', '__delitem__', '__iadd__', 'move_to_end'}
+
+
+def param_writes(name, f):
+    """statements of a generated function that write *through one of its parameters* (the document / the instance it was
+    given): item or attribute assignment / deletion / augmented assignment whose target is rooted in a parameter, and calls
+    of mutating container methods on an expression rooted in a parameter.  Names re-bound inside the function (e.g. a loop
+    variable shadowing a parameter) no longer count as the parameter.  -> list of descriptions"""
+    src = fn_source(name, f)
+    try:
+        tree = ast.parse(src)
+    except SyntaxError:
+        return []
+    fn = tree.body[0]
+    params = {a.arg for a in fn.args.args + fn.args.kwonlyargs + fn.args.posonlyargs}
+    if fn.args.vararg:
+        params.add(fn.args.vararg.arg)
+    if fn.args.kwarg:
+        params.add(fn.args.kwarg.arg)
+    # a parameter that is assigned anywhere in the body is treated as a local from then on: drop it (conservative for the
+    # claim "no write through the caller's object" only if the new value is fresh; the generators never re-bind `o`)
+    rebound = set()
+    for node in ast.walk(fn):
+        if isinstance(node, ast.Name) and isinstance(node.ctx, ast.Store) and node.id in params:
+            rebound.add(node.id)
+    # aliases: `v1 = o.get(...)`-style locals hold *parts* of the input: track simple aliases rooted in a parameter
+    rooted = set(params)
+    changed = True
+    while changed:
+        changed = False
+        for node in ast.walk(fn):
+            if isinstance(node, ast.Assign) and len(node.targets) == 1 and isinstance(node.targets[0], ast.Name):
+                if node.targets[0].id not in rooted and _root(node.value) in rooted:
+                    rooted.add(node.targets[0].id)
+                    changed = True
+            elif isinstance(node, ast.For) and isinstance(node.target, ast.Name):
+                if node.target.id not in rooted and _root(node.iter) in rooted:
+                    rooted.add(node.target.id)
+                    changed = True
+    out = []
+    for node in ast.walk(fn):
+        targets = []
+        if isinstance(node, ast.Assign):
+            targets = node.targets
+        elif isinstance(node, (ast.AugAssign, ast.AnnAssign)):
+            targets = [node.target]
+        elif isinstance(node, ast.Delete):
+            targets = node.targets
+        for t in targets:
+            for tt in (t.elts if isinstance(t, (ast.Tuple, ast.List)) else [t]):
+                if isinstance(tt, (ast.Subscript, ast.Attribute)) and _root(tt.value) in rooted:
+                    out.append(f'line {node.lineno}: writes {ast.unparse(tt)}')
+        if isinstance(node, ast.Call) and isinstance(node.func, ast.Attribute) and node.func.attr in MUTATORS:
+            if _root(node.func.value) in rooted:
+                out.append(f'line {node.lineno}: calls {ast.unparse(node.func)}(...)')
+    return out
+
+
+def _root(e):
+    """the name an expression is rooted in: `o['a'].b[0]` -> 'o'; calls of non-mutating accessors keep the root
+    (`o.get(k)`, `o.items()`); anything else -> None"""
+    while True:
+        if isinstance(e, ast.Name):
+            return e.id
+        if isinstance(e, (ast.Subscript, ast.Attribute)):
+            e = e.value
+        elif isinstance(e, ast.Call) and isinstance(e.func, ast.Attribute) and e.func.attr in ('get', 'items', 'values', 'keys'):
+            e = e.func.value
+        else:
+            return None
